@@ -14,6 +14,11 @@ V = os.environ.get('VERIF_ROOT') or os.path.dirname(os.path.dirname(os.path.absp
 COQ = V + '/coq'
 CACHE = V + '/.cache'
 HARNESS = V + '/harness'
+# The checks decide the properties of /repo's working tree.  VERIF_REPO points them at another checkout
+# (a scratch worktree carrying a seeded change) without touching /repo: the harness sources are copied
+# next to a Cargo.toml that names that checkout, and every cargo target directory gets a suffix.
+REPO = os.environ.get('VERIF_REPO', '/repo').rstrip('/') or '/repo'
+TAG = '' if REPO == '/repo' else '-' + hashlib.sha1(REPO.encode()).hexdigest()[:8]
 # (scratch runs against a deliberately modified /repo set these so that committed evidence is not overwritten)
 REPLAYS = os.environ.get('VERIF_REPLAY_DIR') or V + '/replays'
 EVIDENCE = os.environ.get('VERIF_EVIDENCE_DIR') or V + '/evidence'
@@ -188,19 +193,33 @@ def ensure_catalogue():
 
 
 def harness_path(cfg, release=False):
-    return '%s/target-%s/%s/harness' % (CACHE, cfg, 'release' if release else 'debug')
+    return '%s/target-%s%s/%s/harness' % (CACHE, cfg, TAG, 'release' if release else 'debug')
+
+
+def harness_dir():
+    """the crate to build: V/harness itself for /repo, else a copy whose Cargo.toml names VERIF_REPO"""
+    if not TAG:
+        return HARNESS
+    d = CACHE + '/harness' + TAG
+    os.makedirs(d, exist_ok=True)
+    sh(['rsync', '-a', '--delete', '--exclude', 'Cargo.toml', '--exclude', 'Cargo.lock', '--exclude', 'target', HARNESS + '/', d + '/'])
+    toml = open(HARNESS + '/Cargo.toml').read().replace('/repo/borsh', REPO + '/borsh')
+    if not os.path.exists(d + '/Cargo.toml') or open(d + '/Cargo.toml').read() != toml:
+        open(d + '/Cargo.toml', 'w').write(toml)
+    return d
 
 
 def ensure_harness(cfg, timeout=2400):
     """Rebuild the harness (and borsh, from /repo's working tree) for one feature configuration.
     Returns (path or None, build log)."""
     ensure_catalogue()
-    lock = HARNESS + '/Cargo.lock'
+    hd = harness_dir()
+    lock = hd + '/Cargo.lock'
     if not os.path.exists(lock):
-        sh(['cp', '/repo/Cargo.lock', lock])
+        sh(['cp', REPO + '/Cargo.lock', lock])
     feats, _ = CONFIGS[cfg]
-    cmd = ['timeout', str(timeout), 'cargo', 'build', '--offline', '--features', feats, '--target-dir', '%s/target-%s' % (CACHE, cfg)]
-    rc, out = sh(cmd, cwd=HARNESS, timeout=timeout + 60)
+    cmd = ['timeout', str(timeout), 'cargo', 'build', '--offline', '--features', feats, '--target-dir', '%s/target-%s%s' % (CACHE, cfg, TAG)]
+    rc, out = sh(cmd, cwd=hd, timeout=timeout + 60)
     if rc != 0:
         return None, out
     return harness_path(cfg), out
